@@ -598,7 +598,7 @@ class Executor:
                 return (a == b) if name == 'Eq' else (a != b)
             return {'Eq': a == b, 'Ne': a != b, 'Lt': a < b, 'Le': a <= b, 'Gt': a > b, 'Ge': a >= b}[name]
         if isf(a):
-            return self.float_op(path, name, a, b)
+            return self.float_op(path, name, a, b, ta or dst_ty or 'f32')
         if z3.is_bool(a):
             return {'BitAnd': z3.And(a, b), 'BitOr': z3.Or(a, b), 'BitXor': z3.Xor(a, b)}[name]
         ty = ta or dst_ty
@@ -649,23 +649,24 @@ class Executor:
             return z3.BV2Int(R, is_signed=(lo < 0))
         raise MirUnsupported('binop ' + name)
 
-    def float_round(self, path, exact):
-        """real-relaxation: one relative rounding error |d| <= 2^-24 per operation (normal range, no overflow)."""
+    def float_round(self, path, exact, ty='f32'):
+        """real-relaxation: one relative rounding error |d| <= 2^-24 (f32) / 2^-53 (f64) per operation (normal range, no overflow)."""
         d = z3.Real(self.fresh_name('delta'))
-        path.pc.append(z3.And(d >= -z3.RealVal(1) / 2**24, d <= z3.RealVal(1) / 2**24))
+        u = z3.RealVal(1) / (2**53 if ty == 'f64' else 2**24)
+        path.pc.append(z3.And(d >= -u, d <= u))
         path.env['deltas'] = path.env.get('deltas', ()) + (d,)
         return exact * (1 + d)
 
-    def float_op(self, path, name, a, b):
+    def float_op(self, path, name, a, b, ty='f32'):
         if self.float_mode == 'real':
             if name == 'Add':
-                return self.float_round(path, a + b)
+                return self.float_round(path, a + b, ty)
             if name == 'Sub':
-                return self.float_round(path, a - b)
+                return self.float_round(path, a - b, ty)
             if name == 'Mul':
-                return self.float_round(path, a * b)
+                return self.float_round(path, a * b, ty)
             if name == 'Div':
-                return self.float_round(path, a / b)
+                return self.float_round(path, a / b, ty)
             raise MirUnsupported('float op ' + name)
         rm = z3.RNE()
         return {'Add': z3.fpAdd, 'Sub': z3.fpSub, 'Mul': z3.fpMul, 'Div': z3.fpDiv}[name](rm, a, b)
@@ -699,9 +700,20 @@ class Executor:
             tr = z3.ToInt(r)
             return z3.If(z3.fpIsNaN(v), z3.IntVal(0), z3.If(z3.Or(tr < lo, z3.And(z3.fpIsInf(v), z3.fpIsNegative(v))), z3.IntVal(lo),
                          z3.If(z3.Or(tr > hi, z3.fpIsInf(v)), z3.IntVal(hi), tr)))
+        if kind == 'FloatToFloat':
+            if self.float_mode != 'real':
+                raise MirUnsupported('FloatToFloat in fp mode')
+            if ty == 'f64':
+                return v                      # widening is exact
+            return self.float_round(path, v, 'f32')
         if kind == 'IntToFloat':
             if self.float_mode == 'real':
-                return self.float_round(path, z3.ToReal(v))
+                bits = 53 if ty == 'f64' else 24
+                # exact when the integer has at most `bits` significant bits
+                if src_ty in INT_RANGE and max(abs(INT_RANGE[src_ty][0]), abs(INT_RANGE[src_ty][1])) <= 2**bits:
+                    return z3.ToReal(v)
+                r = z3.ToReal(v)
+                return z3.If(z3.And(v >= -2**bits, v <= 2**bits), r, self.float_round(path, r, ty))
             return z3.fpToFP(z3.RNE(), z3.ToReal(v), z3.Float32() if ty == 'f32' else z3.Float64())
         raise MirUnsupported('cast ' + kind)
 
